@@ -217,7 +217,7 @@ class Transform:
                 for j in range(len(child.marks)):
                     if not parent_type.allows_mark_type(child.marks[j].type):
                         self.step(RemoveMarkStep(cur, end, child.marks[j]))
-                if child.is_text and not parent_type.spec.get("code"):
+                if child.is_text and parent_type.whitespace != "pre":
                     assert isinstance(child, TextNode)
                     newline = re.compile(r"\r?\n|\r")
                     slice = None
